@@ -165,10 +165,43 @@ func (f *frame) callCommon(c *ssa.CallCommon, in ssa.Instruction, st *bstate, re
 	done := false
 	// 1. contract (repo function under contract or extern)
 	if fc, pkg, pnames, rnames := f.eng().contractFor(c); fc != nil {
+		// interior pointers (&v.Type, &s[i]) handed to a contracted callee: the
+		// callee's contract speaks about an object, so it gets a fresh one holding
+		// a copy of the pointee (copy-in); what the callee left there is written
+		// back afterwards (copy-out). Sound as long as the callee does not keep the
+		// pointer, which none of the contracted callees called this way does
+		// (attribute decoders writing through their receiver).
+		type cio struct {
+			orig  *LV
+			fresh *LV
+		}
+		var copies []cio
 		if len(lvs) > 0 {
-			unsup("interior pointer passed to contracted callee %s", name)
+			if c.IsInvoke() {
+				unsup("interior pointer passed to contracted interface method %s", name)
+			}
+			for i, a := range c.Args {
+				lv, ok := f.lvs[a]
+				if !ok {
+					continue
+				}
+				pt, isPtr := a.Type().Underlying().(*types.Pointer)
+				if !isPtr || i >= len(args) {
+					unsup("interior pointer passed to contracted callee %s", name)
+				}
+				fr := f.freshRef(st, "iptr", a.Type())
+				fl := f.lvOfRef(fr.T, pt.Elem())
+				f.store(st, fl, f.load(st, lv))
+				args[i] = fr
+				copies = append(copies, cio{lv, fl})
+			}
+			vc.note("interior pointer passed to contracted callee " + name + ": copy-in/copy-out of the pointee (the callee is assumed not to retain the pointer)")
 		}
 		res = f.applyContract(fc, pkg, pnames, rnames, c.Signature(), args, st, label, resT, in)
+		for _, cp := range copies {
+			f.store(st, cp.orig, f.load(st, cp.fresh))
+		}
+		lvs = nil
 		done = true
 	}
 	// 2. inline
